@@ -252,8 +252,42 @@ impl Prop for C16 {
                 let supplied: Option<raw::utils::Ptr<raw::Layers>> = if cx.rng.chance(1, 3) {
                     let shared = raw::utils::Ptr::new(raw::Layers::default());
                     if cx.rng.bool() {
-                        let earlier = build(&mut cx.rng);
-                        let _ = guard(|| LefImporter::import(&earlier.lef, Some(shared.clone())));
+                        // what went into the set before: another library; this library with its layer names in the other letter case (MET1 next
+                        // to met1: two layers, not one); or this library with a pin appended that is off the grid, so that the earlier
+                        // import FAILED after it had met every layer name
+                        let mut earlier = match cx.rng.below(3) {
+                            0 => build(&mut cx.rng).lef,
+                            _ => b.lef.clone(),
+                        };
+                        let swap = |n: &str| -> String { n.chars().map(|c| if c.is_ascii_lowercase() { c.to_ascii_uppercase() } else { c.to_ascii_lowercase() }).collect() };
+                        match cx.rng.below(2) {
+                            0 => {
+                                for m in earlier.macros.iter_mut() {
+                                    for g in m.obs.iter_mut() {
+                                        g.layer_name = swap(&g.layer_name);
+                                    }
+                                    for pin in m.pins.iter_mut() {
+                                        for port in pin.ports.iter_mut() {
+                                            for g in port.layers.iter_mut() {
+                                                g.layer_name = swap(&g.layer_name);
+                                            }
+                                        }
+                                    }
+                                }
+                                cx.count("earlier_import_with_layer_names_in_the_other_case");
+                            }
+                            _ => {
+                                if let Some(m) = earlier.macros.last_mut() {
+                                    m.pins.push(LefPin {
+                                        name: "offgrid".into(),
+                                        ports: vec![LefPort { class: None, layers: vec![LefLayerGeometries { layer_name: "met1".into(), geometries: vec![LefGeometry::Shape(LefShape::Rect(None, LefPoint::new(LefDecimal::new(1, 0), LefDecimal::new(123456, 6)), LefPoint::new(LefDecimal::new(3, 0), LefDecimal::new(4, 0))))], ..Default::default() }] }],
+                                        ..Default::default()
+                                    });
+                                }
+                                cx.count("earlier_import_that_failed");
+                            }
+                        }
+                        let _ = guard(|| LefImporter::import(&earlier, Some(shared.clone())));
                         cx.count("imports_into_an_already_populated_layer_set");
                     } else {
                         cx.count("imports_into_a_supplied_empty_layer_set");
